@@ -31,6 +31,49 @@ def G():
 # operand builders (work in symbolic and in concrete mode)
 # ---------------------------------------------------------------------------
 
+_REAL_ATTRS = {}
+
+
+def _real_attrs(kind):
+    """attribute names of an instance built by the REAL constructor (one concrete sample per process)"""
+    if kind not in _REAL_ATTRS:
+        if S._ENGINE is not None:
+            return None  # never run real constructors while stubs are installed (it would pollute the path); see warm_shape_cache
+        g = G()
+        P_, V_ = g.Point, g.Vector
+        try:
+            sample = {
+                "Line": lambda: g.Line(P_(0, 0, 0), V_(1, 2, 2)),
+                "Plane": lambda: g.Plane(P_(0, 0, 0), V_(2, 1, -2)),
+                "Segment": lambda: g.Segment(P_(0, 0, 0), P_(2, 4, 4)),
+                "HalfLine": lambda: g.HalfLine(P_(0, 0, 0), V_(1, 2, 2)),
+                "ConvexPolygon": lambda: g.ConvexPolygon((P_(0, 0, 0), P_(4, 0, 0), P_(4, 4, 0), P_(0, 4, 0))),
+            }[kind]()
+            _REAL_ATTRS[kind] = set(vars(sample))
+        except Exception:
+            _REAL_ATTRS[kind] = None
+    return _REAL_ATTRS[kind]
+
+
+def warm_shape_cache():
+    """called once in the parent process, before any stub is installed"""
+    for kind in ("Line", "Plane", "Segment", "HalfLine", "ConvexPolygon"):
+        _real_attrs(kind)
+
+
+def shape_guard(vc, kind, obj):
+    """the operand builders below set the attributes by hand (so that the invariant, not the constructor, is the precondition).  If the
+    real constructor now gives its instances other attributes (e.g. a new cached field), the builder is outdated: that is a limit of this
+    tool, reported as undecided - it must not surface as a 'does not raise' violation of the code under verification."""
+    if not getattr(vc, "symbolic", False):
+        return
+    real = _real_attrs(kind)
+    mine = set(k for k in vars(obj) if not k.startswith("_tok"))
+    if real is not None and real != mine:
+        from g3dvc.engine import EngineLimit
+        raise EngineLimit("operand builder for %s is outdated: real instances have attributes %s, the builder sets %s" % (kind, sorted(real), sorted(mine)))
+
+
 def V(vc, name):
     g = G()
     return g.Vector(vc.real(name + ".x"), vc.real(name + ".y"), vc.real(name + ".z"))
@@ -58,6 +101,7 @@ def line(vc, name):
     l.sv = V(vc, name + ".sv")
     l.dv = V(vc, name + ".dv")
     vc.assume(SP.vnonzero(SP.vec(l.dv)), "invariant Line: dv != 0")
+    shape_guard(vc, "Line", l)
     return l
 
 
@@ -69,6 +113,7 @@ def plane(vc, name):
     _random_unit(vc, name + ".n")
     p.n = V(vc, name + ".n")
     vc.assume(SP.eq(SP.norm2(SP.vec(p.n)), 1), "invariant Plane: |n| = 1")
+    shape_guard(vc, "Plane", p)
     return p
 
 
@@ -84,6 +129,7 @@ def segment(vc, name):
     l.sv = g.Vector(*a)
     l.dv = g.Vector(*SP.sub(b, a))
     s.line = l
+    shape_guard(vc, "Segment", s)
     return s
 
 
@@ -99,6 +145,7 @@ def halfline(vc, name):
     l.sv = g.Vector(*SP.vec(h.point))
     l.dv = g.Vector(*SP.vec(h.vector))
     h.line = l
+    shape_guard(vc, "HalfLine", h)
     return h
 
 
@@ -512,6 +559,7 @@ def polygon(vc, name, n, convex=True):
     pg.plane = pl
     cx = [sum(SP.vec(p)[k] for p in pts) / n for k in range(3)]
     pg.center_point = g.Point(*cx)
+    shape_guard(vc, "ConvexPolygon", pg)
     return pg
 
 
